@@ -1,6 +1,7 @@
 package main
 
 import (
+	"strings"
 	"fmt"
 	"strconv"
 	"go/types"
@@ -236,6 +237,17 @@ func (ex *Exec) verifyFunc(fn *ssa.Function, c *Contract) {
 		}
 		args = append(args, ex.topParams[name])
 	}
+	for _, t := range sortedKeys(ex.tracked(c)) {
+		// declare the execution counters up front: they are ordinary ghost state
+		i := strings.LastIndex(t, "#")
+		k, _ := strconv.Atoi(t[i+1:])
+		st.heap(siteHeap(fn.String(), t[:i], k), SortInt)
+	}
+	for _, t := range sortedKeys(ex.errSites()) {
+		i := strings.LastIndex(t, "#")
+		k, _ := strconv.Atoi(t[i+1:])
+		st.setHeap(siteErrHeap(fn.String(), t[:i], k), NilIface)
+	}
 	ex.entry = st.snapshot()
 	fr0 := &Frame{fn: fn, contract: c, depth: 0, params: ex.topParams}
 	env := &Env{ex: ex, st: st, old: ex.entry, vars: map[string]Val{}, fr: fr0, pkg: ex.pkgOfFrame(fr0)}
@@ -286,6 +298,9 @@ func (ex *Exec) verifyFunc(fn *ssa.Function, c *Contract) {
 			if i == 0 {
 				post.vars["result"] = r
 			}
+		}
+		if c.NoReturn {
+			ex.check(st2, fr0, "post", "noreturn", FalseT, c.NoReturnProps, "the function never returns to its caller", "")
 		}
 		for _, e := range c.Ensures {
 			if e.Kind == "assumes" {
